@@ -29,9 +29,27 @@ CONTRACT = ("to_pandas(filters=F) contains every source row satisfying F (null n
 
 DATASETS = ["flat1", "flat3", "flat4v2", "flat2v2", "hive0", "hive_pi", "hive_ps_pb", "hive_pt", "drill_pi_ps",
             "idx_dt", "one_row"]
+# (test-data/evo is left out: its last file is mis-decoded by the plain full read - name '' / age 2 where the
+# file's statistics say 'Alex' / 36 - so the full read cannot serve as the oracle side there; C03 territory)
 FOREIGN = ["nation.plain.parquet", "test.parquet", "split", "multi_rgs_pyarrow", "datapage_v2.snappy.parquet",
-           "spark-date-empty-rg.parq", "evo"]
+           "spark-date-empty-rg.parq"]
 
+
+# quick tier: columns per dataset (thorough: every column of every dataset).  Every column kind, every
+# statistics state and every partition kind is still met at least once.
+QUICK_COLS = {
+    "flat1": ["rid", "f", "c", "b", "k"],
+    "flat3": None,                                   # all columns
+    "flat4v2": ["rid", "i", "s", "c", "t", "an", "b"],
+    "flat2v2": ["rid", "s", "n", "an"],
+    "hive0": ["rid", "i", "t", "an"],
+    "hive_pi": ["pi", "rid", "f", "s", "c", "n", "k"],
+    "hive_ps_pb": ["ps", "pb", "rid", "i"],
+    "hive_pt": ["pt", "rid", "t", "f"],
+    "drill_pi_ps": ["dir0", "dir1", "rid", "i", "c"],
+    "idx_dt": ["t", "rid", "i", "s"],
+    "one_row": ["rid", "s", "f"],
+}
 
 # ---------------------------------------------------------------------------------------------
 # enumeration of constants and filter programs
@@ -73,7 +91,7 @@ def _py(v):
     return v.item() if isinstance(v, np.generic) else v
 
 
-def constants(view, col):
+def constants(view, col, tier="quick"):
     """[(tag, value)]: at / just below / just above every chunk bound, outside the global range, interior,
     of another comparable type."""
     ser = view.base[view.colmap.get(col, col)]
@@ -93,39 +111,50 @@ def constants(view, col):
             out.append((tag, v))
     if not bounds:
         return kind, out
+
+    def wide(bj):      # one step below/above: every chunk in the thorough tier, first and last chunk in quick
+        return tier != "quick" or bj in (0, len(bounds) - 1)
     gmin, gmax = min(b[0] for b in bounds), max(b[1] for b in bounds)
     if kind == "int":
-        for lo, hi in bounds:
+        for bj, (lo, hi) in enumerate(bounds):
             for m, t in ((lo, "min"), (hi, "max")):
                 m = int(m)
-                add(t, m), add(t + "-", m - 1), add(t + "+", m + 1)
+                add(t, m)
+                if wide(bj):
+                    add(t + "-", m - 1), add(t + "+", m + 1)
         add("below", int(gmin) - 100), add("above", int(gmax) + 100)
         add("float_at", float(gmin)), add("float_at", float(gmax))
         add("float_between", float(gmin) + 0.5), add("float_between", float(gmax) - 0.5)
         add("float_out", float(gmax) + 0.5)
     elif kind == "float":
-        for lo, hi in bounds:
+        for bj, (lo, hi) in enumerate(bounds):
             for m, t in ((lo, "min"), (hi, "max")):
                 m = float(m)
-                add(t, m), add(t + "-", m - 0.25), add(t + "+", m + 0.25)
+                add(t, m)
+                if wide(bj):
+                    add(t + "-", m - 0.25), add(t + "+", m + 0.25)
         add("below", float(gmin) - 100.0), add("above", float(gmax) + 100.0)
         add("int_at", int(np.ceil(gmin))), add("int_at", int(np.floor(gmax)))
         add("int_out", int(np.floor(gmax)) + 1), add("int_out", int(np.ceil(gmin)) - 1)
         add("nan", float("nan"))
     elif kind in ("str", "cat"):
-        for lo, hi in bounds:
+        for bj, (lo, hi) in enumerate(bounds):
             for m, t in ((lo, "min"), (hi, "max")):
-                add(t, m), add(t + "+", m + "0"), add(t + "-", m[:-1])
+                add(t, m)
+                if wide(bj):
+                    add(t + "+", m + "0"), add(t + "-", m[:-1])
         add("below", ""), add("above", "zzz")
         if kind == "cat":
             for lab in ser.cat.categories:
                 add("label", lab)
     elif kind == "dt":
         h = pd.Timedelta(hours=1)
-        for lo, hi in bounds:
+        for bj, (lo, hi) in enumerate(bounds):
             for m, t in ((lo, "min"), (hi, "max")):
                 m = pd.Timestamp(m)
-                add(t, m), add(t + "-", m - h), add(t + "+", m + h)
+                add(t, m)
+                if wide(bj):
+                    add(t + "-", m - h), add(t + "+", m + h)
         add("below", pd.Timestamp(gmin) - pd.Timedelta(days=400)), add("above", pd.Timestamp(gmax) + pd.Timedelta(days=400))
         add("np_at", np.datetime64(pd.Timestamp(gmax).to_datetime64()))
     elif kind == "bool":
@@ -169,15 +198,17 @@ def in_lists(view, col, consts):
     return res
 
 
-def single_atoms(view, cols):
+def single_atoms(view, cols, tier="quick"):
     """-> list of (col, kind, op, ctag, val)"""
     atoms = []
     for col in cols:
-        kind, consts = constants(view, col)
+        kind, consts = constants(view, col, tier)
         if kind == "other" or not consts:
             continue
         for op in D.SCALAR_OPS:
             for tag, v in consts:
+                if op == "=" and tier == "quick" and tag not in ("min", "max", "below", "above"):
+                    continue          # '=' is the alias of '==': bounds and outside only in the quick tier
                 atoms.append((col, kind, op, tag, v))
         for op in ("in", "not in"):
             for tag, L in in_lists(view, col, consts):
@@ -187,7 +218,7 @@ def single_atoms(view, cols):
 
 def programs(view, cols, tier):
     """-> list of (shape, F, feature dict)."""
-    atoms = single_atoms(view, cols)
+    atoms = single_atoms(view, cols, tier)
     out = []
     for (col, kind, op, tag, v) in atoms:
         out.append(("atom", [(col, op, v)], {"col": col, "kind": kind, "op": op, "const": tag}))
@@ -221,16 +252,46 @@ def programs(view, cols, tier):
 # ---------------------------------------------------------------------------------------------
 # regions of the two known defects (features only; the oracle never looks at this)
 
+def _has_minmax(pf, j, col):
+    for ch in pf.row_groups[j].columns:
+        if ".".join(ch.meta_data.path_in_schema) == col:
+            st = ch.meta_data.statistics
+            if st is None:
+                return False
+            return (st.max is not None or st.max_value is not None) and (st.min is not None or st.min_value is not None)
+    return False
+
+
 def recorded_bounds(view, j, col):
-    """(min, max) as RECORDED in the chunk statistics (decoded by the library's own statistics()), or None."""
-    st = view.stats
+    """(min, max) the chunk statistics carry, or None when the chunk has no min/max.  Presence is read from
+    the metadata; the values are recomputed from the source (statistics are exact, C04) - for a categorical
+    column in CATEGORY order, which is what the writer records."""
+    if not _has_minmax(view.pf, j, col):
+        return None
+    ser = view.base[view.colmap.get(col, col)]
+    if isinstance(ser.dtype, pd.CategoricalDtype):
+        present = set(ser.iloc[view.offsets[j]:view.offsets[j + 1]].dropna().astype(object))
+        labs = [c for c in ser.cat.categories if c in present]
+        return (labs[0], labs[-1]) if labs else None
+    tb = _rg_bounds(view, col)[j]
+    return (_py(tb[0]), _py(tb[1])) if tb is not None else None
+
+
+def _cast_changes(view, col, val):
+    """Partition column with an integer dtype in the pandas metadata: the library casts the filter constant to
+    that dtype (1.5 -> 1).  -> the cast constant when it differs from the constant, else None."""
+    ser = view.base[view.colmap.get(col, col)]
+    if view.ds.src is None or ser.dtype.kind not in "iu":
+        return None
     try:
-        lo, hi = st["min"][col][j], st["max"][col][j]
-    except (KeyError, IndexError):
+        if isinstance(val, (list, tuple)):
+            c = [int(x) for x in val]
+            return c if any(a != b_ for a, b_ in zip(c, val)) else None
+        if isinstance(val, float) and val == val and int(val) != val:
+            return int(val)
+    except (TypeError, ValueError):
         return None
-    if lo is None or hi is None:
-        return None
-    return _py(lo), _py(hi)
+    return None
 
 
 def ref_excluded(op, val, vmin, vmax):
@@ -257,6 +318,20 @@ def ref_excluded(op, val, vmin, vmax):
     return False
 
 
+def part_list_raises(view, F):
+    """in / not in on a partition column whose pandas-metadata dtype is bool or datetime: the library converts
+    the LIST with the scalar converter of that dtype and raises (TypeError / ValueError)."""
+    if view.ds.src is None:
+        return None
+    for g in D.normalise(F):
+        for (col, op, val) in g:
+            if col in view.partcols and op in ("in", "not in") and view.pf.file_scheme == "hive":
+                k = view.base[view.colmap.get(col, col)].dtype.kind
+                if k in "bM":
+                    return "partlist_raises"
+    return None
+
+
 def defect_region(view, F, sat):
     """'no' | 'notin' | 'catstats' | 'notin+catstats' | 'maybe'.
     notin    = documented region of api.filter_not_in: chunk with recorded min != max and (min in values or
@@ -281,6 +356,12 @@ def defect_region(view, F, sat):
             h = None
             for (col, op, val) in g:
                 if col in view.partcols:
+                    cv = _cast_changes(view, col, val)
+                    if cv is not None and view.pf.file_scheme == "hive":
+                        v0 = _py(view.base[view.colmap.get(col, col)].iloc[lo])
+                        if ref_excluded(op, cv, v0, v0):
+                            h = "partcast"
+                            break
                     continue
                 rb = recorded_bounds(view, j, col)
                 if rb is None:
@@ -310,14 +391,26 @@ def check_one(view, F, k=0):
     """Evaluate the contract; returns None or a description of the violation."""
     pf = view.pf
     fpapi = __import__("fastparquet.api").api
-    got = pf.to_pandas(filters=F)
+    # every 4th case reads all columns; the others the key column + the filter's data columns (the property is
+    # about rows; column selection is C06's subject)
+    rcols = None
+    if k % 4 != 0 and view.keycols:
+        rcols = list(view.keycols)
+        for g in D.normalise(F):
+            for a in g:
+                if a[0] not in rcols and a[0] not in view.partcols and a[0] != view.ds.index_col:
+                    rcols.append(a[0])
+    got = pf.to_pandas(filters=F, columns=rcols) if rcols else pf.to_pandas(filters=F)
     idx = fpapi.filter_row_groups(pf, F, as_idx=True)
     if list(idx) != sorted(set(idx)):
         return "filter_row_groups(as_idx=True) is not an ascending selection: %s" % (idx,)
     J = [j for j in idx if view.rg_rows[j] > 0]
-    d = D.explain_diff(got, view.concat(J), index_values=view.index_values_ok)
+    exp = view.concat(J)
+    if rcols:
+        exp = exp[rcols]
+    d = D.explain_diff(got, exp, index_values=view.index_values_ok)
     if d:
-        J2 = view.match_row_groups(got) if len(view.full) <= 200 else None
+        J2 = view.match_row_groups(got) if len(view.full) <= 200 and not rcols else None
         if J2 is None:
             return "result is not the in-order concatenation of whole row groups (selected %s): %s" % (J, d)
         return "filter_row_groups(as_idx=True)=%s but the result is the concatenation of %s" % (J, J2)
@@ -339,8 +432,9 @@ def check_one(view, F, k=0):
     if tot != len(got):
         return "iter_row_groups(filters=F) yields %d rows, to_pandas %d" % (tot, len(got))
     if its:
-        cat = pd.concat(its, ignore_index=all(isinstance(x.index, pd.RangeIndex) for x in its))
-        d = D.explain_diff(cat, got[cols] if cols else got, index_values=view.index_values_ok)
+        cat = D.concat_frames(its)
+        ref = pf.to_pandas(filters=F) if (rcols and not cols) else got
+        d = D.explain_diff(cat, ref[cols] if cols else ref, index_values=view.index_values_ok)
         if d:
             return "iter_row_groups(filters=F) concatenation differs: " + d
     return None
@@ -414,10 +508,13 @@ def run_dataset(args):
     cols = _filter_columns(view)
     if view.ds.foreign:
         cols = cols[:4]
+    elif tier == "quick" and QUICK_COLS.get(name):
+        cols = [c for c in QUICK_COLS[name] if c in cols]
+    progs = programs(view, cols, tier)
     if colsel is not None:
-        cols = [c for k, c in enumerate(cols) if k % colsel[1] == colsel[0]]
+        progs = progs[colsel[0]::colsel[1]]
     res = []
-    for shape, F, ft in programs(view, cols, tier):
+    for shape, F, ft in progs:
         feats = {"ds": view.ds.name, "shape": shape}
         feats.update(ft)
         try:
@@ -427,6 +524,11 @@ def run_dataset(args):
         region = defect_region(view, F, sat)
         if region == "maybe":
             continue
+        plr = part_list_raises(view, F)
+        if plr:
+            if shape != "atom":
+                continue        # whether the raising atom is reached depends on the pruning of its neighbours
+            region = plr
         feats["known_region"] = region
         feats["part_col"] = any(a[0] in view.partcols for g in D.normalise(F) for a in g)
         try:
@@ -454,11 +556,13 @@ def run_bounded(ctx):
         D.build_all(fp, root, names)
         tasks = []
         for n in names:
-            split = 3 if n in ("flat3", "flat4v2", "flat2v2", "hive0", "hive_pi", "hive_ps_pb", "drill_pi_ps", "idx_dt") else 1
+            split = 1 if n == "one_row" else 6
             for k in range(split):
                 tasks.append((root, n, ctx.tier, (k, split) if split > 1 else None))
         for f in FOREIGN:
-            tasks.append((root, "foreign:" + f, ctx.tier, None))
+            split = 4 if f in ("split", "test.parquet") else 1
+            for k in range(split):
+                tasks.append((root, "foreign:" + f, ctx.tier, (k, split) if split > 1 else None))
         workers = min(16, os.cpu_count() or 4)
         with cf.ProcessPoolExecutor(max_workers=workers) as ex:
             results = list(ex.map(run_dataset, tasks))
